@@ -86,7 +86,7 @@ func (r *Rediaron) ListWorkloads(ctx context.Context, appname, entrypoint, noden
 		nodename = ""
 	}
 	// 这里显式加个 / 来保证 prefix 是唯一的
-	key := filepath.Join(workloadDeployPrefix, appname, entrypoint, nodename) + "/*"
+	key := escapeGlob(filepath.Join(workloadDeployPrefix, appname, entrypoint, nodename)) + "/*"
 	data, err := r.getByKeyPattern(ctx, key, limit)
 	if err != nil {
 		return nil, err
@@ -108,7 +108,7 @@ func (r *Rediaron) ListWorkloads(ctx context.Context, appname, entrypoint, noden
 
 // ListNodeWorkloads list workloads belong to one node
 func (r *Rediaron) ListNodeWorkloads(ctx context.Context, nodename string, labels map[string]string) ([]*types.Workload, error) {
-	key := fmt.Sprintf(nodeWorkloadsKey, nodename, "*")
+	key := fmt.Sprintf(nodeWorkloadsKey, escapeGlob(nodename), "*")
 	data, err := r.getByKeyPattern(ctx, key, 0)
 	if err != nil {
 		return nil, err
@@ -137,7 +137,7 @@ func (r *Rediaron) WorkloadStatusStream(ctx context.Context, appname, entrypoint
 		nodename = ""
 	}
 	// 显式加个 / 保证 prefix 唯一
-	statusKey := filepath.Join(workloadStatusPrefix, appname, entrypoint, nodename) + "/*"
+	statusKey := escapeGlob(filepath.Join(workloadStatusPrefix, appname, entrypoint, nodename)) + "/*"
 	ch := make(chan *types.WorkloadStatus)
 	logger := log.WithFunc("store.redis.WorkloadStatusStream")
 	_ = r.pool.Invoke(func() {
